@@ -29,6 +29,8 @@ func init() {
 			"both keys derive from all their documented components; sharing is dominated by the query-only eligibility tests; every wait on a shared record can also leave through the participant's own context; " +
 			"and (context provenance) whether a follower can return the leader's cancellation verbatim. It does not decide byte equality of what participants receive.",
 		Mutants: []Mutant{
+			{Name: "leader publishes a re-formatted error (seeded change C11-22)", File: "v2/pkg/engine/resolve/loader.go", Rule: "C11-R9", Key: "Loader.loadByContext/shared-error-keeps-chain",
+				Old: "\tif err != nil {\n\t\titem.err = err\n\t\treturn err\n\t}\n", New: "\tif err != nil {\n\t\titem.err = fmt.Errorf(\"shared subgraph request failed: %v\", err)\n\t\treturn err\n\t}\n"},
 			{Name: "FinishErr skips the wake-up when no follower is counted (seeded change C11-12)", File: "v2/pkg/engine/resolve/inbound_request_singleflight.go", Rule: "C11-R2", Key: "InboundRequestSingleFlight.FinishErr/every-exit-wakes-waiters",
 				Old: "\tshard.m.Delete(req.ID)\n\treq.Err = err\n\tclose(req.Done)", New: "\tshard.m.Delete(req.ID)\n\tif !req.HasFollowers() {\n\t\treturn\n\t}\n\treq.Err = err\n\tclose(req.Done)"},
 			{Name: "leader's client write error shared with the followers (seeded change C11-11)", File: resolveGo, Rule: "C11-R8", Key: "ArenaResolveGraphQLResponse/finish-err-not-from-client-write",
@@ -65,6 +67,7 @@ func init() {
 
 func runC11(r *fw.Run) {
 	defer c11LeaderWriteErrorIsNotShared(r)
+	defer c11SharedErrorKeepsItsChain(r)
 	p := r.Prog
 	pk := p.Pkg("resolve")
 	if pk == nil {
@@ -1122,4 +1125,53 @@ func c11LeaderWriteErrorIsNotShared(r *fw.Run) {
 	}
 	in.Run(nil)
 	r.Expect("C11-R8", "FinishErr calls in ArenaResolveGraphQLResponse", n, 3)
+}
+
+// c11SharedErrorKeepsItsChain (R9): a follower of the subgraph single flight decides what the leader's failure means for
+// itself by inspecting the shared error with errors.Is (leaderCancelled: a leader whose own client went away is not a
+// failure of the follower, which then loads on its own). That works only if the value the leader publishes in
+// SingleFlightItem.err is the error itself or a wrapper that keeps the chain (%w, errors.WithStack). A re-formatted error
+// (fmt.Errorf("…: %v", err)) cuts the chain: the leader's client disconnect becomes the follower's "Failed to fetch from
+// Subgraph" response.
+func c11SharedErrorKeepsItsChain(r *fw.Run) {
+	p := r.Prog
+	r.Rule("C11-R9", "the error a single-flight leader publishes in SingleFlightItem.err is the error value itself or a chain-preserving wrapper (fmt.Errorf with %w, errors.WithStack / Wrap): followers classify it with errors.Is")
+	n := 0
+	for _, fi := range p.Funcs("resolve") {
+		info := fi.Info()
+		fw.WalkAll(fi.Decl.Body, func(nd ast.Node) bool {
+			as, ok := nd.(*ast.AssignStmt)
+			if !ok || len(as.Lhs) != len(as.Rhs) {
+				return true
+			}
+			for i, l := range as.Lhs {
+				if !fw.IsFieldSel(info, l, "resolve", "SingleFlightItem", "err") {
+					continue
+				}
+				n++
+				rhs := ast.Unparen(as.Rhs[i])
+				okChain := false
+				switch x := rhs.(type) {
+				case *ast.Ident:
+					okChain = true // the error itself (or nil)
+				case *ast.CallExpr:
+					fn := fw.Callee(info, x)
+					switch {
+					case fn != nil && fn.Pkg() != nil && fn.Pkg().Path() == "fmt" && fn.Name() == "Errorf" && len(x.Args) > 0:
+						if f, isC := fw.ConstVal(info, x.Args[0]); isC && strings.Contains(f, "%w") {
+							okChain = true
+						}
+					case fn != nil && fn.Pkg() != nil && strings.HasSuffix(fn.Pkg().Path(), "/errors") && (fn.Name() == "WithStack" || fn.Name() == "Wrap" || fn.Name() == "Wrapf" || fn.Name() == "WithMessage"):
+						okChain = true
+					case fn != nil && fn.Pkg() != nil && fn.Pkg().Path() == "errors" && fn.Name() == "Join":
+						okChain = true
+					}
+				}
+				r.Check(okChain, "C11-R9", fi.Name()+"/shared-error-keeps-chain#"+itoa(n), p.Pos(as.Pos()), "the value stored in SingleFlightItem.err in "+fi.Name()+" keeps the error chain",
+					"the leader publishes a re-formatted error: errors.Is(item.err, context.Canceled) is false for every follower, so a leader whose own client disconnected fails its healthy followers with 'Failed to fetch from Subgraph' instead of letting them load on their own")
+			}
+			return true
+		})
+	}
+	r.Expect("C11-R9", "writes of SingleFlightItem.err", n, 1)
 }
